@@ -483,7 +483,7 @@ def r24_call_shim(src, item, ed, opts):
         elif kind == "unary":
             c = [n for n in nodes_of(item, "unary") if n["op"] == sp["op"]]
         elif kind == "binary":
-            c = [n for n in nodes_of(item, "binary") if n["op"] == sp["op"] and (sp.get("right") is None or src.text(*n["right"]).replace(" ", "") == sp["right"].replace(" ", ""))]
+            c = [n for n in nodes_of(item, "binary") if n["op"] == sp["op"] and (sp.get("right") is None or src.text(*n["right"]).replace(" ", "") == sp["right"].replace(" ", "")) and (sp.get("left") is None or src.text(*n["left"]).replace(" ", "") == sp["left"].replace(" ", ""))]
         elif kind == "unsafe":
             c = nodes_of(item, "unsafe")
         elif kind == "ref_index":
@@ -495,6 +495,8 @@ def r24_call_shim(src, item, ed, opts):
             c = [n for n in nodes_of(item, "index") if sp.get("base") is None or src.text(*n["expr"]).replace(" ", "") == sp["base"].replace(" ", "")]
         elif kind == "cast":
             c = [n for n in nodes_of(item, "cast") if n["ty"] == sp["ty"]]
+        elif kind == "assign":
+            c = [n for n in nodes_of(item, "assign") if n["left_text"] == sp["left"].replace(" ", "")]
         else:
             raise Unsupported(f"shim kind {kind}")
         idxs = [sp["n"]] if "n" in sp else list(range(len(c)))
@@ -516,6 +518,9 @@ def r24_call_shim(src, item, ed, opts):
                 env["operand"] = src.text(*n["operand"])
             elif kind == "binary":
                 env["left"] = src.text(*n["left"])
+                env["right"] = src.text(*n["right"])
+                env["arg_right"] = src.text(*n["right"])
+            elif kind == "assign":
                 env["right"] = src.text(*n["right"])
             elif kind == "cast":
                 env["expr"] = src.text(*n["expr"])
